@@ -99,7 +99,7 @@ def materialize(world, scratch, vcf_name="in.vcf", phased_truth=False, tag="PS")
     nbam = 1 + max([r.get("bam", 0) for r in world.get("reads", [])] + [0])
     alns_by_bam = [[] for _ in range(nbam)]
     counters = [0] * nbam
-    rgs = [{"ID": f"rg_{s}", "SM": s} for s in samples]
+    rgs = [{"ID": f"rg_{s}", "SM": s} for s in samples if s not in world.get("no_read_group", ())]
     n = 0
     for r in world.get("reads", []):
         alns = alns_by_bam[r.get("bam", 0)]
